@@ -546,6 +546,11 @@ class RtrEngine(object):
                           "route %#x app %d; the router holds %#x %#x %#x %d"
                           % (i, rte.key, rte.mask, route_bits, app, e.key,
                              e.mask, e.route, e.app), kind="readback-differs")
+            if core != (e.core & 0xf):
+                w.violate("RB", "read-back of index %d says the entry was "
+                          "installed by core %r; the router copy records "
+                          "core %d" % (i, core, e.core & 0xf),
+                          kind="readback-core")
         w.ops[-1] += " -> ok"
         w.ops_completed += 1
 
@@ -613,8 +618,10 @@ class RtrEngine(object):
                 first = ch.rtr_alloc(cnt, app)
                 if first and t.draw(3):
                     for i in range(first, first + cnt):
+                        # (entries installed by some core of that app)
                         ch.router[i] = RouterEntry(0x1000 + i, 0xffffffff,
-                                                   1 << (i % 24), app)
+                                                   1 << (i % 24), app,
+                                                   core=(app + j) % 16)
             # free some of them again (holes)
             for blk in list(ch.rtr_blocks):
                 if t.draw(3) == 0:
